@@ -113,3 +113,63 @@ def c16_walks(nwalks, length):
                     ops.append(dict(op="ErrAny", ring=0))
             yield ops
     return gen
+
+
+# ------------------------------------------------------------------- C15
+def c15_to_callbacks(scripts, seed):
+    """Replay builder map behaviours on the jwt_t handed to a generate callback
+    and to a verify callback (same operations, other call site)."""
+    for s in scripts:
+        steps = [dict(k=o["k"], which=o["which"], v=o["v"], map=1) for o in s if o.get("op") == "BMap"]
+        if not steps:
+            continue
+        yield [dict(op="BNew", b=0), dict(op="BSetCb", b=0, prog=steps), dict(op="Generate", b=0, slot=-1)]
+        yield [dict(op="CNew", c=0), dict(op="CSetCb", c=0, prog=steps),
+               dict(op="Verify", c=0, tok=forge("none"))]
+
+
+OBJ_TEXT = '{"a":1,"c":"z"}'
+OBJ_M = [mem("a", "int", "", W(1)), mem("c", "str", "z")]
+
+
+def c15_walks(nwalks, length):
+    def gen(seed):
+        rnd = random.Random(seed * 104729 + 15)
+        names = ["a", "b", "c", "iat", "typ", "", "~"]
+        for _ in range(nwalks):
+            ops = [dict(op="BNew", b=0)]
+            for _ in range(length):
+                which = rnd.choice(["hdr", "clm"])
+                x = rnd.random()
+                n = rnd.choice(names)
+                if x < 0.5:
+                    t = rnd.choice(["int", "str", "bool", "json"])
+                    rep = rnd.choice([0, 0, 1])
+                    if t == "int":
+                        v = val("int", n, W(rnd.choice([0, 1, -1, 5, 2**31, -2**31 - 1, 2**62, -2**63, 2**63 - 1])), rep)
+                    elif t == "str":
+                        v = val("str", n, rnd.choice(["x", "", "hello world", "~", "a\\\\b", "q\"uote"]), rep)
+                    elif t == "bool":
+                        v = val("bool", n, rnd.choice([0, 1]), rep)
+                    else:
+                        c = rnd.choice(["obj", "obj", "arr", "malformed", "scalar", "null", "emptyobj"])
+                        if c == "obj":
+                            v = val("json", n, OBJ_TEXT, rep, "obj", OBJ_M, OBJ_TEXT)
+                        elif c == "emptyobj":
+                            v = val("json", n, "{}", rep, "obj", [], "{}")
+                        elif c == "arr":
+                            v = val("json", n, "[1, 2]", rep, "arr", [], "[1,2]")
+                        elif c == "malformed":
+                            v = val("json", n, rnd.choice(['{"a":', '{"a":1,"a":2}', "", "nope", "{'a':1}"]), rep, "malformed")
+                        elif c == "scalar":
+                            v = val("json", n, rnd.choice(["7", '"s"', "true", "null"]), rep, "scalar")
+                        else:
+                            v = val("json", n, "~", rep, "null")
+                    ops.append(dict(op="BMap", b=0, k="set", which=which, v=v))
+                elif x < 0.85:
+                    t = rnd.choice(["int", "str", "bool", "json"])
+                    ops.append(dict(op="BMap", b=0, k="get", which=which, v=val(t, n)))
+                else:
+                    ops.append(dict(op="BMap", b=0, k="del", which=which, v=val("int", n if rnd.random() < 0.8 else "~")))
+            yield ops
+    return gen
